@@ -84,6 +84,28 @@ const (
 	stEmpty   = "empty"
 )
 
+// Spellings of the configured root (DirStructure path, fstree base path,
+// updater storage dir) other than the clean absolute path: all denote the
+// same directory.
+var spellings = []string{"trailing-sep", "trailing-sep2", "inner-dot", "inner-sep2"}
+
+func spell(root, kind string) string {
+	dir, base := filepath.Dir(root), filepath.Base(root)
+	switch kind {
+	case "":
+		return root
+	case "trailing-sep":
+		return root + "/"
+	case "trailing-sep2":
+		return root + "//"
+	case "inner-dot":
+		return dir + "/./" + base
+	case "inner-sep2":
+		return dir + "//" + base
+	}
+	panic("unknown root spelling " + kind)
+}
+
 var rootStates = map[string][]string{
 	"fstree":    {stRemoved, stFile, stEmpty},
 	"dirstruct": {stRemoved, stFile, stEmpty},
@@ -99,7 +121,8 @@ type caseSpec struct {
 	Prefix string   `json:"prefix"`     // "", "/", "{ROOT}/" (absolute path of the root), "{PARENT}/" (absolute path of its parent)
 	Rel    string   `json:"rel"`        // the segments joined by "/"
 	Cwd    string   `json:"cwd,omitempty"`
-	State  string   `json:"root_state,omitempty"` // state of the root when the call is made: "" = populated directory, see rootStates
+	State  string   `json:"root_state,omitempty"`    // state of the root when the call is made: "" = populated directory, see rootStates
+	Spell  string   `json:"root_spelling,omitempty"` // how the root path is written when it is handed to the component, see spellings
 	Name   string   `json:"name_in_this_run,omitempty"`
 	Audit  bool     `json:"audit,omitempty"` // witness of the strace read audit (oracle ii)
 }
@@ -497,7 +520,7 @@ func runCase(cs caseSpec, w *worker) (res caseResult) {
 			must(os.RemoveAll(sb.root))
 			must(os.Mkdir(sb.root, 0o755))
 		}
-		st, err := fstree.NewFSTree("db", sb.root)
+		st, err := fstree.NewFSTree("db", spell(sb.root, cs.Spell))
 		must(err)
 		if cs.State == stRemoved || cs.State == stFile {
 			sb.establish(cs)
@@ -544,9 +567,13 @@ func runCase(cs caseSpec, w *worker) (res caseResult) {
 			panic("unknown op")
 		}
 	case "dirstruct":
-		ds := utils.NewDirStructure(sb.root, dsRootPerm)
-		ds.ChildDir("a", dsChildPerm)
+		ds := utils.NewDirStructure(spell(sb.root, cs.Spell), dsRootPerm)
+		child := ds.ChildDir("a", dsChildPerm)
 		switch cs.Op {
+		case "Child.EnsureRelPath":
+			// a child structure derived from the root; the scope is the top structure's root
+			res.target = filepath.Join(sb.root, "a", name)
+			op = func() error { return child.EnsureRelPath(name) }
 		case "EnsureAbsPath":
 			if filepath.IsAbs(name) {
 				res.target = filepath.Clean(name)
@@ -578,7 +605,7 @@ func runCase(cs caseSpec, w *worker) (res caseResult) {
 		storage := filepath.Dir(filepath.Dir(sb.root))
 		sb.buildInside(cs)
 		reg := &updater.ResourceRegistry{Name: "c18"}
-		must(reg.Initialize(utils.NewDirStructure(storage, 0o755)))
+		must(reg.Initialize(utils.NewDirStructure(spell(storage, cs.Spell), 0o755)))
 		sb.populateLevel(filepath.Dir(sb.root), unpackRoot, unpackRoot, false)
 		if cs.State != "" {
 			sb.establish(cs)
@@ -594,7 +621,7 @@ func runCase(cs caseSpec, w *worker) (res caseResult) {
 		before = snapshot(sb.caseDir)
 	case "scan":
 		reg := &updater.ResourceRegistry{Name: "c18"}
-		must(reg.Initialize(utils.NewDirStructure(sb.root, 0o755))) // wipes and re-creates <root>/tmp: same tree
+		must(reg.Initialize(utils.NewDirStructure(spell(sb.root, cs.Spell), 0o755))) // wipes and re-creates <root>/tmp: same tree
 		if cs.State != "" {
 			sb.establish(cs)
 		}
@@ -735,6 +762,9 @@ func evaluate(c *vlib.Ctx, cs caseSpec, res caseResult, verbose bool) {
 	if cs.State != "" {
 		desc += " root-state=" + cs.State
 	}
+	if cs.Spell != "" {
+		desc += " root-spelling=" + cs.Spell + " (" + spell("{SANDBOX}/"+strings.Join(cs.Chain, "/"), cs.Spell) + ")"
+	}
 	if verbose {
 		fmt.Printf("case: %s\n  lexical target: %q escaping=%v\n  error: %q (is error: %v)\n  outside changes: %v\n  outside data returned: %v\n  %s\n",
 			desc, res.target, res.escaping, res.err, res.isErr, res.changes, res.outData, res.extra)
@@ -768,9 +798,12 @@ func evaluate(c *vlib.Ctx, cs caseSpec, res caseResult, verbose bool) {
 	if cs.State != "" {
 		out += "[root " + cs.State + "]"
 	}
+	if cs.Spell != "" {
+		out += "[root spelled " + cs.Spell + "]"
+	}
 	if res.escaping {
 		out += "/escaping"
-		c.Nontrivial(fmt.Sprintf("%s|%s|%v|%s|%s|%s%s", cs.Comp, cs.Op, cs.Chain, cs.Cwd, cs.State, cs.Prefix, cs.Rel))
+		c.Nontrivial(fmt.Sprintf("%s|%s|%v|%s|%s|%s|%s%s", cs.Comp, cs.Op, cs.Chain, cs.Cwd, cs.State, cs.Spell, cs.Prefix, cs.Rel))
 	} else {
 		out += "/inside"
 	}
@@ -857,16 +890,18 @@ func main() {
 			[][]string{{"st", "tmp", unpackRoot}, {"a", unpackRoot, "st", "tmp", unpackRoot}},
 			[][]string{{"st", "tmp", unpackRoot}, {unpackRoot + "-other", "st", "tmp", unpackRoot}, {"a", unpackRoot, "st", "tmp", unpackRoot}})
 		stateSeg := map[string]int{"fstree": vlib.Pick(c, 3, 4), "dirstruct": vlib.Pick(c, 2, 3), "scan": vlib.Pick(c, 2, 3), "unpack": vlib.Pick(c, 2, 3)}
+		childSeg := maxSeg - 1
+		spellSeg := map[string]int{"fstree": vlib.Pick(c, 2, 3), "dirstruct": vlib.Pick(c, 3, 4), "scan": vlib.Pick(c, 2, 3), "unpack": vlib.Pick(c, 2, 3)}
 		sets := []rootSet{
 			{"fstree", []string{"Put", "Get", "Delete", "Query"}, plain, []string{""}},
-			{"dirstruct", []string{"EnsureAbsPath", "EnsureRelPath", "EnsureRelDir"}, plain, []string{""}},
+			{"dirstruct", []string{"EnsureAbsPath", "EnsureRelPath", "EnsureRelDir", "Child.EnsureRelPath"}, plain, []string{""}},
 			{"unpack", []string{"UnpackArchive"}, unp, []string{""}},
 			{"scan", []string{"ScanStorage"}, plain, vlib.Pick(c, []string{"parent"}, []string{"parent", "root"})},
 			{"bridge", []string{"callAPI"}, [][]string{{"api", "v1"}}, []string{""}},
 		}
 		c.Rule(fmt.Sprintf("every name = prefix + s1/.../sk, 1<=k<=%d, si in {a, .., ., \"\", <rootname>-other, <rootname>}, prefix in {\"\", \"/\", <abs root>/, <abs parent of root>/}; "+
 			"for every component operation and every root chain; each case on a fresh sandbox tree with sentinel files/dirs named a, <rootname>, <rootname>-other at every level above the root. "+
-			"additionally (shorter names) with the root removed / replaced by a regular file after the backend was opened / an empty directory. "+
+			"additionally (shorter names) with the root path spelled <root>/, <root>//, <parent>/./<root>, <parent>//<root> when handed to the component, and with the root removed / replaced by a regular file after the backend was opened / an empty directory. "+
 			"distinct_nontrivial = cases whose name lexically resolves outside the root", maxSeg))
 		c.Assume("no symbolic links inside the sandbox: containment is decided lexically (Join/Clean), as the property's quantifier is over name strings")
 		c.Assume("reads outside the root are observed only through what the operation hands back (record content, query results, scanned resources) unless the optional strace audit ran; a read whose result is discarded is not seen by the engine-Q part")
@@ -891,7 +926,30 @@ func main() {
 								continue // the working directory only matters for relative names
 							}
 							for _, op := range rs.ops {
+								if op == "Child.EnsureRelPath" && strings.Count(r, "/") >= childSeg {
+									continue // the child structure adds one level: names one segment shorter
+								}
 								specs = append(specs, caseSpec{Comp: rs.comp, Op: op, Chain: chain, Prefix: pf, Rel: r, Cwd: cwd})
+							}
+						}
+					}
+				}
+			}
+			// the root-spelling dimension: the same names (up to a smaller length) with the
+			// root handed to the component as <root>/, <root>//, <parent>/./<root>, <parent>//<root>
+			if rs.comp != "bridge" {
+				for _, sp := range spellings {
+					for _, chain := range rs.chains {
+						c.Scenario(fmt.Sprintf("%s root={SANDBOX}/%s root-spelling=%s", rs.comp, strings.Join(chain, "/"), sp))
+						k := spellSeg[rs.comp]
+						if rs.comp == "dirstruct" && sp != "trailing-sep" {
+							k-- // the full length only for the spelling the scope check looks at
+						}
+						for _, r := range rels(chain[len(chain)-1], k) {
+							for _, pf := range prefixes {
+								for _, op := range rs.ops {
+									specs = append(specs, caseSpec{Comp: rs.comp, Op: op, Chain: chain, Prefix: pf, Rel: r, Cwd: rs.cwds[0], Spell: sp})
+								}
 							}
 						}
 					}
@@ -978,7 +1036,7 @@ func main() {
 			if !r.done {
 				continue
 			}
-			k := fmt.Sprintf("%s|%v|%s|%s|%s|%s", s.Comp, s.Chain, s.Cwd, s.State, s.Prefix, s.Rel)
+			k := fmt.Sprintf("%s|%v|%s|%s|%s|%s|%s", s.Comp, s.Chain, s.Cwd, s.State, s.Spell, s.Prefix, s.Rel)
 			st := int64(0)
 			if _, ok := seenInput[k]; !ok {
 				seenInput[k] = struct{}{}
